@@ -58,7 +58,14 @@ void *realloc(void *ptr, size_t len)
     std::lock_guard<igris::syslock> lguard(lock);
 
     if (len % __WORDSIZE != 0)
-        len += (__WORDSIZE - (len % __WORDSIZE));
+    {
+        size_t pad = __WORDSIZE - (len % __WORDSIZE);
+        if (len > (size_t)-1 - pad)
+            /* The rounded size does not fit a size_t (it would wrap to a
+             * tiny size and shrink the block): fail, block untouched. */
+            return 0;
+        len += pad;
+    }
 
     /*
      * Same minimum chunk size as in malloc(): a chunk must be able to
